@@ -40,7 +40,7 @@ ASSUMPTIONS = [
 ]
 BUDGET = {"quick": 85, "thorough": 1500}
 FLOORS = {"cli_runs": {"quick": 500, "thorough": 5000}, "accepted": {"quick": 350, "thorough": 3500}, "loaded": {"quick": 250, "thorough": 2500},
-          "targets_evaluated": {"quick": 250, "thorough": 2500}, "jacobian_accounts": {"quick": 150, "thorough": 1500}, "constraint_checks": {"quick": 3000, "thorough": 30000}, "initial_value_checks": {"quick": 60, "thorough": 600}, "runs_completed": {"quick": 40, "thorough": 700}, "model_definition_checks": {"quick": 150, "thorough": 1500},
+          "targets_evaluated": {"quick": 250, "thorough": 2500}, "jacobian_accounts": {"quick": 150, "thorough": 1500}, "target_identity_checks": {"quick": 150, "thorough": 1500}, "constraint_checks": {"quick": 3000, "thorough": 30000}, "initial_value_checks": {"quick": 60, "thorough": 600}, "runs_completed": {"quick": 40, "thorough": 700}, "model_definition_checks": {"quick": 150, "thorough": 1500},
           "subcommands": 4}
 
 MODELS = ["JC69", "K80", "HKY", "SYM", "GTR", "SRD06", "MG94", "LG", "WAG"]
@@ -169,6 +169,12 @@ def cases(tier, seed):
         out.append(c)
     for i, c in enumerate(out):
         c["run"] = tier == "thorough" or i % 8 == 0
+    # configurations without any prior object: a clock with a fixed rate and no tree prior under JC69 (nothing left to put a prior
+    # on), and the Poisson tree likelihood (no alignment, no substitution model)
+    for sub in ("advi", "map", "mcmc", "hmc"):
+        for fixed in (True, False):
+            out.append({"sub": sub, "model": "JC69", "C": 1, "I": False, "clock": "strict", "heights": "ratio", "prior": "no-tree-prior", "extras": ({"rate": 0.0033} if fixed else {}), "run": True})
+        out.append({"sub": sub, "model": "JC69", "C": 1, "I": False, "clock": "strict", "heights": "ratio", "prior": "constant", "extras": {"poisson": True}, "run": True})
     # the data set shipped with the repository (69 dated influenza sequences, a tree with tied internal node heights)
     for i in range(16 if tier == "quick" else 240):
         clock = str(rng.choice(["strict", "strict", "ucln"]))
@@ -188,6 +194,8 @@ def argv_for(case):
     aln = f["codon"] if m == "MG94" else (f["aa"] if m in ("LG", "WAG") else f["nuc"])
     e = case["extras"]
     a = [case["sub"], "-i", aln, "-t", f["nexus"] if e.get("nexus") else f["tree"], "-m", m]
+    if e.get("poisson"):
+        a = [case["sub"], "-t", f["tree"], "--poisson"]  # the Poisson tree likelihood takes the place of alignment and substitution model
     if case["C"] > 1:
         a += ["-C", str(case["C"])]
     if case["I"]:
@@ -206,7 +214,7 @@ def argv_for(case):
     if case["sub"] in ("map", "mcmc"):
         a += ["--stem", os.path.join(_DATA["dir"], "out")]
     for k, v in e.items():
-        if k in ("cutoff", "nexus"):
+        if k in ("cutoff", "nexus", "poisson"):
             continue
         if k == "dates":
             a += ["--dates", _DATA["files"]["dates_csv"] if v == "csv" else "0"]
@@ -391,6 +399,14 @@ def check_loaded(case, spec, dic, V, C, detail, feat, torch):
     if target is None:
         V.append(tt.viol("C19:no-target", "cannot find the density handed to the algorithm", **detail))
         return
+    # (h) samplers and variational optimisers work on the unconstrained coordinates: the density they are handed is the joint *with*
+    # the Jacobian terms (the object whose accounting (d) verifies), not the constrained joint
+    if sub != "map" and "joint.jacobian" in dic:
+        C["target_identity_checks"] = C.get("target_identity_checks", 0) + 1
+        if target is not dic["joint.jacobian"]:
+            V.append(tt.viol("C19:target-is-not-joint.jacobian:%s" % sub, "%s: the density handed to the %s is `%s', not `joint.jacobian' (the Jacobian terms of the constraining transforms are missing from the target) [%s]" % (
+                sub, type(getattr(algo, "loss", algo)).__name__, getattr(target, "id", None), " ".join(detail["argv"])), **detail))
+            return
     # (g) the substitution model is the one asked for: its free parameters are those of the documented model (K80 and SYM have equal,
     # fixed base frequencies; JC69 has nothing to estimate) - "targets the right density" starts with the right model
     FREE = {"JC69": set(), "K80": {"kappa"}, "HKY": {"kappa", "frequencies"}, "SYM": {"rates"}, "GTR": {"rates", "frequencies"}}
